@@ -675,6 +675,72 @@ CHECKS["C17"] = Spec(
     rule="see scenario_rule",
     extra=_close_check,
 )
+def _leg_check(ctx):
+    """C10: generated legacy stores upgraded by the real code (uninterrupted and interrupted+resumed), contents oracle, fsck, and the chunk/remap arithmetic replayed on the model."""
+    prop, tier, wd, rng = ctx["prop"], ctx["tier"], ctx["wd"], ctx["rng"]
+    C.go_build(["legdrive"])
+    n = 160 if tier == "quick" else 5000
+    lines = []
+    cdir = os.path.join(C.VERIF, "corpus", prop)
+    if os.path.isdir(cdir):
+        for fn in sorted(os.listdir(cdir)):
+            if fn.endswith(".legcase"):
+                lines += [l.strip() for l in open(os.path.join(cdir, fn)) if l.strip() and not l.startswith("#")]
+    if ctx.get("replay") and ctx["replay"].endswith(".legcase"):
+        lines, n = [l.strip() for l in open(ctx["replay"]) if l.strip() and not l.startswith("#")], 0
+    for _ in range(n):
+        lines.append("%d %d %d %d" % (rng.randint(1, 10**9), rng.choice((8, 9, 12, 16)), rng.choice((1, 40, 64, 100, 300, 1 << 20)),
+                                      rng.choice((1, 24, 32, 40, 48, 60, 64, 100, 128, 300, 1 << 20))))
+    parts = C.chunks(lines, C.NCPU)
+    from concurrent.futures import ThreadPoolExecutor
+    def one(i):
+        inp = os.path.join(wd, "leg%d.in" % i)
+        open(inp, "w").write("\n".join(parts[i]) + "\n")
+        p = C.sh([os.path.join(C.BIN, "legdrive"), inp, os.path.join(wd, "leg%d.coq" % i), os.path.join(wd, "leg%d.jsonl" % i)], check=False, timeout=3000, env=dict(os.environ, GOLOG_LOG_LEVEL="fatal"))
+        if p.returncode != 0:
+            raise C.CheckError("legdrive failed: " + p.stdout[-2000:])
+        terms = []
+        txt = open(os.path.join(wd, "leg%d.coq" % i)).read()
+        for m in re.finditer(r"\(\*CASE (\d+)\*\)\n(.*?)(?=\(\*CASE |\Z)", txt, flags=re.S):
+            terms.append(((i, int(m.group(1))), m.group(2).strip()))
+        return terms, [json.loads(l) for l in open(os.path.join(wd, "leg%d.jsonl" % i))]
+    with ThreadPoolExecutor(len(parts)) as ex:
+        outs = list(ex.map(one, range(len(parts))))
+    viol, nontriv, nbad = [], set(), 0
+    for pi, (_, recs) in enumerate(outs):
+        for r in recs:
+            if r["chunk_files"] >= 3 and r["keys"] >= 2:
+                nontriv.add(r["line"])
+            if r["phase"] != "ok":
+                nbad += 1
+                if len(viol) < 3:
+                    rp = C.save_replay(prop, "leg-%s.legcase" % hashlib.sha1(r["line"].encode()).hexdigest()[:10],
+                                       "# C10 fails on the implementation: %s: %s\n# (line = seed, index bits, new index file size, new primary file size)\n# replay: cd /verif && ./check C10 --replay <this file>\n%s\n" % (r["phase"], r.get("bad"), r["line"]))
+                    viol.append(("legacy upgrade: %s: %s" % (r["phase"], r.get("bad")), rp, True))
+    terms = [t for o in outs for t in o[0]]
+    mism, coq_s = C.coq_replay(terms, wd, header="From STH Require Import Log Chunk ChunkReplay.\nFrom Coq Require Import List NArith. Import ListNotations. Open Scope N_scope.\n",
+                               ctor_list="chunk_case", fn="chunk_mismatches")
+    if mism and not viol:
+        (pi, ci), _ = mism[0]
+        line = parts[pi][ci]
+        rp = C.save_replay(prop, "legcorr-%s.legcase" % hashlib.sha1(line.encode()).hexdigest()[:10],
+                           "# correspondence obligation broken: the chunk files / remapped offsets of the real upgrade differ from chunks/remap of coq/theories/Chunk.v on %d of %d cases;\n"
+                           "# the contents oracle found no failing legacy store among %d\n%s\n" % (len(mism), len(terms), len(lines), line))
+        viol.append(("correspondence: upgrade arithmetic differs from the model on %d of %d cases" % (len(mism), len(terms)), rp, False))
+    return viol, {"evaluations": len(lines), "distinct_nontrivial": len(nontriv), "traces_validated_against_impl": len(terms) - len(mism),
+                  "correspondence_mismatches": len(mism), "oracle_failures": nbad, "samples": [{"case": lines[-1]}], "coq_replay_s": round(coq_s, 1),
+                  "case_rule": "a store written by the current code into single huge files (3-12 keys sharing bucket bits and prefixes, 5-45 puts/overwrites/removals/flushes) is re-packaged as a "
+                               "version-2 single-file index, a bare single-file primary and a freelist with its pending entries; it is opened with new limits (index 1..2^20, primary 1..2^20 incl. limits that "
+                               "records hit exactly) uninterrupted and interrupted after 0,1,2,3,5,8,13 context polls then resumed; every key is compared with the expected map after the upgrade and after a reopen; "
+                               "fsck on the upgraded files; chunk sizes and remapped offsets compared with the model; non-trivial = >= 3 chunk files and >= 2 live keys"}
+
+CHECKS["C10"] = Spec(
+    prop_file="C10.v",
+    weights=None,
+    tools=["witness", "legdrive"],
+    rule="see case_rule",
+    extra=_leg_check,
+)
 CHECKS["C15"] = Spec(
     prop_file="C15.v",
     weights=None,
